@@ -21,6 +21,15 @@ CLAIMED = {
             "construction routes, both views are read on deep copies and TLC evaluates every clause of the property "
             "(exact post-state) on each step.",
             "Bounded scope (small scores, listed arguments); trusts TLC, the JSON bridge and the projection in harness/project.py.", "6 (C18)"),
+    "C04": ("SeqViews", "TLC model check of the two-copy coherence protocol SeqViews.tla + walk of its labelled state graph on "
+            "real Sequence objects + TLC trace validation of every step (history-independence oracle)",
+            "TLC checks Coherent/Readable/Visible on every reachable state of the protocol (every public operation from every "
+            "freshness state, fine-grained generator steps, versions <= 6) and shows the invariants bite with the as-built "
+            "defect switch. The labelled graph TLC writes is walked exhaustively to depth 2 (thorough 3) and randomly "
+            "beyond on real objects; after each step both views are read on deep copies and TLC takes the specification's "
+            "action, binds the observed content and evaluates readable / views-agree / effect-visible.",
+            "Content is abstracted to a value in the model; concrete arguments per operation are fixed in the harness; "
+            "histories that interleave a suspended generator with other calls are outside 'legal' (documented by the library).", "4 (C04)"),
 }
 PENDING = {}
 props = [json.loads(l) for l in open(V / "properties.jsonl")]
